@@ -625,6 +625,72 @@ def opIdentify (j : Json) : Except String Json := do
 
 end CliDrv
 
+/-! #### C06 / C13 reading a tree from disk -/
+
+namespace FsDrv
+open Swh.Fs
+
+partial def parseNode (j : Json) : Except String FsNode := do
+  let t ← getS j "t"
+  match t with
+  | "file" => pure (.file (← getN j "mode") (← getB j "data"))
+  | "link" => pure (.symlink (← getB j "target"))
+  | "special" => pure (.special (← getN j "mode"))
+  | "dir" => do
+      let es ← (← getArr j "entries").toList.mapM (fun e => do
+        let a ← e.getArr?
+        let s ← a[0]!.getStr?
+        let nm ← unhexStr s
+        let c ← parseNode a[1]!
+        pure (nm, c))
+      pure (.dir es)
+  | _ => throw s!"bad node {t}"
+
+def parseFilter (j : Json) : Except String Filter := do
+  let k ← getS j "kind"
+  match k with
+  | "acceptAll" => pure .acceptAll
+  | "ignoreEmpty" => pure .ignoreEmpty
+  | "ignoreNamed" => pure (.ignoreNamed (← getChunks j "names") (← getBool j "cs"))
+  | "namedThenEmpty" => pure (.namedThenEmpty (← getChunks j "names") (← getBool j "cs"))
+  | _ => throw s!"bad filter {k}"
+
+def jKind : Kind → Json
+  | .content => Json.str "content" | .skippedContent => Json.str "skipped" | .directory => Json.str "directory"
+
+def jErrFs : Err → Json
+  | .symlinkTooLarge => Json.str "symlinkTooLarge" | .notADirectory => Json.str "notADirectory"
+  | .keyError => Json.str "keyError" | .internal => Json.str "internal"
+
+def opRead (j : Json) : Except String Json := do
+  let tree ← parseNode (← j.getObjVal? "tree")
+  let flt ← parseFilter (← j.getObjVal? "filter")
+  let ml ← getNOpt j "max_len"
+  let coded ← match j.getObjVal? "as_coded" with | .ok (Json.bool b) => pure b | _ => pure true
+  let H := Sha1.sha1
+  let res := if coded then fromDisk H flt.fn ml tree else readTree H flt.fn ml tree
+  let git := match gitTreeOf H tree with | some g => jB g | none => Json.null
+  match res with
+  | .error e => pure <| Json.mkObj [("err", jErrFs e), ("wf", Json.bool (wfFs tree)), ("git", git), ("gitok", Json.bool (gitOk tree))]
+  | .ok r =>
+    let nodes := (nodeTable H r).map (fun (p, k, i, perms) =>
+      Json.arr #[Json.arr (p.map jB).toArray, jKind k, jB i, Json.num (JsonNumber.fromNat perms)])
+    let (cs, sk, ds) := iterDirectory H r
+    let jc := cs.map (fun c => Json.arr #[jB c.sha1git, Json.num (JsonNumber.fromNat c.length), jB (H c.data), Json.bool (c.check H)])
+    let js := sk.map (fun c => Json.arr #[jB c.sha1git, Json.num (JsonNumber.fromNat c.length)])
+    let jd := ds.map (fun d => Json.arr #[jB d.id,
+      Json.arr (d.entries.map (fun e => Json.arr #[jB e.name, Json.str (match e.type with | .file => "file" | .dir => "dir" | .rev => "rev"), Json.num (JsonNumber.fromNat e.perms), jB e.target])).toArray,
+      Json.bool (d.check H)])
+    pure <| Json.mkObj [("nodes", Json.arr nodes.toArray), ("root", jB (rootId H r)),
+      ("contents", Json.arr jc.toArray), ("skipped", Json.arr js.toArray), ("directories", Json.arr jd.toArray),
+      ("wf", Json.bool (wfFs tree)), ("git", git), ("gitok", Json.bool (gitOk tree))]
+
+def opNormalize (j : Json) : Except String Json := do
+  let p ← getB j "path"
+  pure <| Json.mkObj [("path", jB (normalizeTop p))]
+
+end FsDrv
+
 def opSha1 (j : Json) : Except String Json := do
   let b ← getB j "data"
   pure <| Json.mkObj [("sha1", jB (Sha1.sha1 b))]
@@ -663,6 +729,8 @@ def dispatch (op : String) (j : Json) : Except String Json :=
   | "swhid_codec" => opSwhidCodec j
   | "sha1" => opSha1 j
   | "cli_identify" => CliDrv.opIdentify j
+  | "fs_read" => FsDrv.opRead j
+  | "fs_normalize" => FsDrv.opNormalize j
   | _ => throw s!"unknown op {op}"
 
 def handleLine (line : String) : String :=
